@@ -19,9 +19,9 @@ pub const CHECK: Check = Check { id: "C15", level: "exploration", flavours: &["p
 
 const RULE: &str = "cases = (operation in {write, repair, linear extract}, layer set, compression level, data class random / compressible, \
 append piece size, number of files, interleaving on/off), each executed twice in a worker process of its own: streaming S bytes \
-and streaming k*S bytes (quick: 8 MiB vs 64 MiB; thorough: 64 MiB vs 1 GiB) from an on-the-fly generator into a counting \
+and streaming k*S bytes (quick: 32 MiB vs 128 MiB; thorough: 64 MiB vs 1 GiB) from an on-the-fly generator into a counting \
 sink (inputs of repair / extract are files under /verif/.work). Oracle: peak live heap measured by a counting global \
-allocator during the operation stays <= 96 MiB and peak(k*S) <= 1.25 * peak(S) + 4 MiB. A second family keeps the bytes \
+allocator during the operation stays <= 96 MiB and peak(k*S) <= peak(S) + 64 KiB + 5 % + 32 bytes per additional non-contiguous run (the statement allows a term proportional to the number of runs); directed cases stream one file as many small contiguous pieces. A second family keeps the bytes \
 constant and multiplies the number of files by 4: growth must stay <= 2 KiB per additional file (the statement allows a term \
 proportional to the number of files). Non-trivial = size ratio >= 4 with the larger run >= 64 MiB, or file-count ratio >= 4; \
 distinct = hash of the case";
@@ -138,10 +138,19 @@ fn measure(c: &Case, total: u64, nfiles: usize) -> Result<usize, String> {
 }
 
 fn sizes(thorough: bool) -> (u64, u64) {
+    // experiment aid: VERIF_C15_SIZES="small,big" in MiB
+    if let Ok(v) = std::env::var("VERIF_C15_SIZES") {
+        let p: Vec<u64> = v.split(',').filter_map(|x| x.parse().ok()).collect();
+        if p.len() == 2 {
+            return (p[0] << 20, p[1] << 20);
+        }
+    }
     if thorough {
         (64 << 20, 1 << 30)
     } else {
-        (8 << 20, 64 << 20)
+        // 32 MiB is past the warm-up of the brotli encoder (its buffers reach their final size during the
+        // first 16 MiB: measured 9.4 / 10.3 / 17.3 / 17.3 / 17.3 MB of peak heap at 4 / 8 / 16 / 32 / 64 MiB)
+        (32 << 20, 128 << 20)
     }
 }
 
@@ -158,8 +167,9 @@ pub fn worker(args: &[String]) -> i32 {
             Ok((a, b))
         } else {
             let n = 2000 + (c.nfiles as usize % 3000);
-            let a = measure(&c, small, n)?;
-            let b = measure(&c, small, 4 * n)?;
+            let total = small.min(16 << 20);
+            let a = measure(&c, total, n)?;
+            let b = measure(&c, total, 4 * n)?;
             Ok((a, b))
         }
     });
@@ -180,15 +190,31 @@ pub fn worker(args: &[String]) -> i32 {
     }
 }
 
-pub fn judge(c: &Case, a: usize, b: usize) -> Result<(), String> {
+pub fn judge(c: &Case, a: usize, b: usize, thorough: bool) -> Result<(), String> {
     let mib = |x: usize| x as f64 / (1 << 20) as f64;
     let opn = ["write", "repair", "linear extract"][(c.op % 3) as usize];
     if c.family == 0 {
         if b > 96 << 20 {
             return Err(format!("{opn} ({}, level {}): peak heap {:.1} MiB while streaming the larger amount (ceiling 96 MiB)", prog::layers_name(c.layers), c.level, mib(b)));
         }
-        if b as f64 > 1.25 * a as f64 + (4 << 20) as f64 {
-            return Err(format!("{opn} ({}, level {}, piece {} bytes): peak heap grows with the data streamed: {:.1} MiB for the smaller run, {:.1} MiB for the larger", prog::layers_name(c.layers), c.level, c.piece, mib(a), mib(b)));
+        // allowed growth: 64 KiB of noise + 5 % of the smaller peak + 32 bytes per additional non-contiguous
+        // run (the statement allows a term proportional to the number of runs: the writer keeps one u64 offset
+        // per run in a Vec that doubles). Measured on the pinned tree: 0-12 KiB without interleaving.
+        let (small, big) = sizes(thorough);
+        let nfiles = (c.nfiles as u64).clamp(1, 64);
+        let runs = |total: u64| -> u64 {
+            if c.interleave && nfiles >= 2 {
+                total / (c.piece as u64).max(1) + nfiles
+            } else {
+                nfiles
+            }
+        };
+        let allowed = (64u64 << 10) + a as u64 / 20 + 32 * (runs(big) - runs(small));
+        if b as u64 > a as u64 + allowed {
+            return Err(format!(
+                "{opn} ({}, level {}, pieces of {} bytes, {} file(s), interleaved {}): peak heap grows with the bytes streamed: {:.2} MiB for {} MiB, {:.2} MiB for {} MiB (allowed growth {:.2} MiB)",
+                prog::layers_name(c.layers), c.level, c.piece, nfiles, c.interleave, mib(a), small >> 20, mib(b), big >> 20, allowed as f64 / (1 << 20) as f64
+            ));
         }
     } else {
         let n = 2000 + (c.nfiles as usize % 3000);
@@ -206,13 +232,20 @@ fn case() -> impl Strategy<Value = Case> {
         0u8..4,
         prop_oneof![3 => Just(1u8), 2 => Just(5u8), 1 => Just(0u8), 1 => Just(3u8)],
         any::<bool>(),
-        prop_oneof![Just(4096u32), Just(65536), Just(1 << 20), Just(131072 + 1), 1u32..3000, Just(8 << 20)],
+        prop_oneof![Just(4096u32), Just(65536), Just(1 << 20), Just(131072 + 1), 96u32..3000, Just(8 << 20)],
         1u16..40,
         any::<bool>(),
         prop_oneof![4 => Just(0u8), 1 => Just(1u8)],
         any::<u16>(),
     )
-        .prop_map(|(op, layers, level, compressible, piece, nfiles, interleave, family, seed)| Case { op, layers, level, compressible, piece, nfiles, interleave, family, seed })
+        .prop_map(|(op, layers, level, compressible, piece, nfiles, interleave, family, seed)| {
+            // brotli quality >= 3 on incompressible data runs at a few MB/s: keep those cases at quality <= 1
+            let level = if compressible { level } else { level.min(1) };
+            // repair allocates (and zeroes) its 8 MiB buffer for every content block it meets: archives made of
+            // tiny blocks make it slow, which is not what this check measures
+            let piece = if op % 3 == 1 { piece.max(65536) } else { piece };
+            Case { op, layers, level, compressible, piece, nfiles, interleave, family, seed }
+        })
 }
 
 fn run_case_in_worker(c: &Case, thorough: bool) -> Result<(usize, usize), String> {
@@ -240,13 +273,23 @@ fn run(ctx: &Ctx) -> Report {
     let mut rep = Report::new(RULE);
     rep.assume("peak live heap is measured by the harness' counting global allocator in a worker process that runs nothing else; mmap'ed memory of the allocator itself is not counted");
     let thorough = ctx.tier == Tier::Thorough;
-    let n = ctx.n(48, 96) as usize;
+    let n = ctx.n(40, 96) as usize;
     let mut cases = draw(ctx, "memory", case(), n);
     // make sure every (operation, layer set) pair is present at least once
     for (i, c) in cases.iter_mut().enumerate().take(12) {
         c.op = (i % 3) as u8;
         c.layers = (i / 3) as u8;
         c.family = 0;
+    }
+    // directed: one file streamed as many small contiguous pieces (nothing may accumulate per piece)
+    for (i, c) in cases.iter_mut().enumerate().skip(12).take(8) {
+        c.op = if i % 2 == 0 { 0 } else { 2 };
+        c.layers = (i % 4) as u8;
+        c.family = 0;
+        c.piece = [600, 1024, 97, 4096][i % 4];
+        c.interleave = false;
+        c.nfiles = 1 + (i % 2) as u16;
+        c.level = 1;
     }
     let t0 = std::time::Instant::now();
     let mut st = Stats::default();
@@ -262,7 +305,11 @@ fn run(ctx: &Ctx) -> Report {
                     break;
                 }
                 let c = &cases[i];
-                let r = run_case_in_worker(c, thorough).and_then(|(a, b)| judge(c, a, b).map(|()| (a, b)));
+                let t_case = std::time::Instant::now();
+                let r = run_case_in_worker(c, thorough).and_then(|(a, b)| judge(c, a, b, thorough).map(|()| (a, b)));
+                if std::env::var("VERIF_SLOW").is_ok() {
+                    eprintln!("CASE {:.1}s {c:?}", t_case.elapsed().as_secs_f64());
+                }
                 let mut st = stm.lock().unwrap();
                 st.eval(1);
                 st.label(format!("op={} layers={}", ["write", "repair", "linear-extract"][(c.op % 3) as usize], prog::layers_name(c.layers)));
@@ -270,7 +317,10 @@ fn run(ctx: &Ctx) -> Report {
                 match r {
                     Ok((a, b)) => {
                         st.nontrivial(util::hash64(format!("{c:?}").as_bytes()));
-                        st.sample(|| json!({"case": format!("{c:?}"), "peak_small_MiB": a >> 20, "peak_large_MiB": b >> 20}));
+                        st.sample(|| json!({"case": format!("{c:?}"), "peak_small_KiB": a >> 10, "peak_large_KiB": b >> 10}));
+                        if std::env::var("VERIF_SURVEY").is_ok() {
+                            eprintln!("PEAKS family={} op={} layers={} level={} piece={} small={} KiB large={} KiB delta={} KiB", c.family, c.op % 3, c.layers & 3, c.level, c.piece, a >> 10, b >> 10, (b as i64 - a as i64) >> 10);
+                        }
                         st.label(format!("peak_large<= {} MiB", ((b >> 20) / 16 + 1) * 16));
                     }
                     Err(e) => {
@@ -293,5 +343,5 @@ fn run(ctx: &Ctx) -> Report {
 fn replay(ctx: &Ctx, _stage: &str, case: &Value) -> Result<(), String> {
     let c: Case = serde_json::from_value(case.clone()).map_err(|e| format!("HARNESS: bad replay case: {e}"))?;
     let (a, b) = run_case_in_worker(&c, ctx.tier == Tier::Thorough)?;
-    judge(&c, a, b)
+    judge(&c, a, b, ctx.tier == Tier::Thorough)
 }
